@@ -151,7 +151,7 @@ def oracle(lines, obs):
             got = take(pre)
             k = 0
             for group in expected:
-                g = sorted((x[2], x[3], x[4]) for x in got[k:k + len(group)])
+                g = sorted((x[2], x[3].split('@')[0], x[4]) for x in got[k:k + len(group)])
                 if g != group:
                     kind = 'notified-value-differs-from-stored' if sorted(x[:2] for x in g) == sorted(
                         x[:2] for x in group) else 'wrong-listeners-notified'
